@@ -400,7 +400,7 @@ func quaiWire(tx *types.Transaction) []byte {
 	return b
 }
 
-func sign(t *rapid.T, f quaiFields, signer types.Signer, key *ecdsa.PrivateKey) quaiFields {
+func sign(t fataler, f quaiFields, signer types.Signer, key *ecdsa.PrivateKey) quaiFields {
 	signed, err := types.SignTx(f.tx(), signer, key)
 	if err != nil {
 		t.Fatalf("HARNESS: SignTx: %v", err)
